@@ -45,7 +45,7 @@ reg('C16', engine='h_constraint',
     rule='one case = (manifold from the zoo with random parameters, Projected | Atlas | TangentBundle, delta in [0.01,0.5], lambda in '
          '[1.5,5], tolerance in [1e-6,1e-3], atlas parameters, 0-4 ambient-ball obstacles, one of RRT/RRTConnect/PRM/KPIECE1/BIT*): '
          '60 sampler triples, 10 near + 4 far + across-obstacle pairs (interpolate on a t grid, discreteGeodesic in both modes), one '
-         'planner run under an evaluation-counting termination condition; non-trivial = a successful geodesic or a solution path with '
+         'planner run under an evaluation-counting termination condition (per-case sizes are the same in both tiers, the thorough tier runs ten times as many cases); non-trivial = a successful geodesic or a solution path with '
          '>= 3 states was examined; distinct = (manifold, space, planner, delta/lambda/tolerance bucket) hash',
     floors={'quick': {'c16_uniform_samples': 100000, 'c16_near_samples': 100000, 'c16_gaussian_samples': 100000,
                       'c16_interpolated_states': 150000, 'c16_geodesics_ok': 30000, 'c16_geodesic_states': 400000,
@@ -60,12 +60,17 @@ reg('C16', engine='h_constraint',
                       'c16_cases_manifold_two-planes-axis-aligned': 100, 'c16_cases_manifold_two-planes-tilted': 100,
                       'c16_cases_manifold_sphere-cap-plane': 100, 'c16_cases_manifold_S2xS1': 100},
             'thorough': {'c16_uniform_samples': 800000, 'c16_near_samples': 800000, 'c16_gaussian_samples': 800000,
-                         'c16_interpolated_states': 1000000, 'c16_geodesics_ok': 200000, 'c16_geodesic_states': 2500000,
-                         'c16_paths_checked': 5000, 'c16_path_vertices': 50000,
-                         'c16_paths_RRT': 800, 'c16_paths_RRTConnect': 800, 'c16_paths_PRM': 800, 'c16_paths_KPIECE1': 800,
-                         'c16_paths_BITstar': 800,
-                         'c16_cases_ProjectedStateSpace': 1800, 'c16_cases_AtlasStateSpace': 1800,
-                         'c16_cases_TangentBundleStateSpace': 1800}},
+                         'c16_interpolated_states': 1200000, 'c16_geodesics_ok': 240000, 'c16_geodesic_states': 3200000,
+                         'c16_pairs_across_obstacle': 16000, 'c16_pairs_far': 40000, 'c16_pairs_near': 120000,
+                         'c16_paths_checked': 12000, 'c16_path_vertices': 120000,
+                         'c16_paths_RRT': 2000, 'c16_paths_RRTConnect': 2000, 'c16_paths_PRM': 2000, 'c16_paths_KPIECE1': 2000,
+                         'c16_paths_BITstar': 2000,
+                         'c16_cases_ProjectedStateSpace': 4000, 'c16_cases_AtlasStateSpace': 4000,
+                         'c16_cases_TangentBundleStateSpace': 4000,
+                         'c16_cases_manifold_sphere': 800, 'c16_cases_manifold_ellipsoid': 800, 'c16_cases_manifold_torus': 800,
+                         'c16_cases_manifold_plane-axis-aligned': 800, 'c16_cases_manifold_plane-tilted': 800,
+                         'c16_cases_manifold_two-planes-axis-aligned': 800, 'c16_cases_manifold_two-planes-tilted': 800,
+                         'c16_cases_manifold_sphere-cap-plane': 800, 'c16_cases_manifold_S2xS1': 800}},
     level_text='the constraint norm of every sampler, interpolate, successful-geodesic (Projected, Atlas) and solution-path state that '
                'was produced is within the tolerance; successful geodesics keep steps <= lambda*delta and end within delta of the '
                'target, measured with the space\'s own distance',
